@@ -50,6 +50,14 @@ class SimProblem(Problem):
         # caller-owned bound arrays, kept to verify they are never modified (C11)
         self.given = {"xl": um.xl.copy(), "xu": um.xu.copy(), "cl": um.cl.copy(), "cu": um.cu.copy()}
         g = self.given
+        if spec.get("int_bounds"):
+            # bound arrays written with integer literals come with an integer dtype (possible only
+            # for arrays without infinite entries)
+            for k_ in ("xl", "xu", "cl", "cu"):
+                v_ = g[k_]
+                if v_.size and np.all(np.isfinite(v_)) and np.all(v_ == np.round(v_)):
+                    g[k_] = v_.astype(np.int64)
+        self.given_dtypes = {k_: v_.dtype for k_, v_ in g.items()}
         if um.m > 0:
             super().__init__(g["xl"], g["xu"], cons_lb=g["cl"], cons_ub=g["cu"])
         else:
@@ -67,6 +75,9 @@ class SimProblem(Problem):
         self.calls = []  # (comp, total index, arg bytes, inbounds, site[0])
         self.memo = {}
         self.const = {}
+        self.retained = {}  # policy "retain": comp -> (argument array *reference*, y reference, value)
+        self.args_seen = []  # (comp, k, argument array reference, bytes at call time) of the last calls
+        self.arg_mutations = []
         self.handed = []  # (comp, object, private deep copy) for the aliasing oracle
         self.track_alias = False
         self.x0_bytes = None
@@ -117,6 +128,14 @@ class SimProblem(Problem):
             self.log(("eval", comp, self.total[comp], x.tobytes(), inb))
         if self.track_alias:
             self._check_handed("call:%s#%d" % (comp, self.total[comp]))
+        # a user may keep the array it was called with (memoising on it): the library must not
+        # overwrite an argument array it handed to a callback earlier
+        for (c0, k0, ref0, b0) in self.args_seen:
+            if ref0 is not x and ref0.tobytes() != b0:
+                self.arg_mutations.append((c0, k0, comp, self.total[comp]))
+            elif ref0 is x and x.tobytes() != b0:
+                self.arg_mutations.append((c0, k0, comp, self.total[comp]))
+        self.args_seen = [a for a in self.args_seen if a[2] is not x][-5:] + [(comp, self.total[comp], x, x.tobytes())]
         return k, site
 
     def _note_fired(self, idx, comp, k, x, site):
@@ -133,6 +152,15 @@ class SimProblem(Problem):
 
     @staticmethod
     def _same_value(v, snap):
+        try:
+            return SimProblem._same_value_(v, snap)
+        except Exception:  # noqa
+            # the handed-out object can no longer even be read consistently (e.g. its data array
+            # was resized under its index arrays): it certainly does not hold its value any more
+            return False
+
+    @staticmethod
+    def _same_value_(v, snap):
         if sp.sparse.issparse(v):
             if v.shape != snap.shape or v.dtype != snap.dtype:
                 return False
@@ -173,7 +201,7 @@ class SimProblem(Problem):
     def given_modified(self):
         um = self.um
         ref = {"xl": um.xl, "xu": um.xu, "cl": um.cl, "cu": um.cu}
-        return [k for k, v in self.given.items() if v.tobytes() != ref[k].tobytes()]
+        return [k for k, v in self.given.items() if v.dtype != self.given_dtypes[k] or v.shape != ref[k].shape or not np.array_equal(v, ref[k])]
 
     def start_alias_tracking(self):
         self.track_alias = True
@@ -188,19 +216,47 @@ class SimProblem(Problem):
             # (the repository's own Tame test problem does this)
             return sp.sparse.coo_matrix(np.asarray(dense).astype(np.int64)).asformat(self.fmt)
         M = sp.sparse.coo_matrix(dense)
+        if self.spec.get("xzeros"):
+            # a fixed sparsity pattern: some structurally possible entries are stored although
+            # their value is zero at this point
+            D = np.asarray(dense)
+            zr, zc = np.nonzero(D == 0)
+            if zr.size:
+                pick = [0, zr.size // 2] if zr.size > 1 else [0]
+                M = sp.sparse.coo_matrix((np.concatenate([M.data, np.zeros(len(pick), dtype=M.data.dtype)]), (np.concatenate([M.row, zr[pick]]), np.concatenate([M.col, zc[pick]]))), shape=M.shape)
+        if self.spec.get("dup") and self.fmt == "coo" and M.nnz > 0:
+            # a COO matrix assembled from concatenated contributions: some positions occur twice,
+            # the entry is the (exact) sum of the two halves
+            k2 = max(1, M.nnz // 2)
+            half = M.data[:k2] * 0.5
+            data = np.concatenate([half, M.data[k2:], half])
+            row = np.concatenate([M.row, M.row[:k2]])
+            col = np.concatenate([M.col, M.col[:k2]])
+            M = sp.sparse.coo_matrix((data, (row, col)), shape=M.shape)
         if self.spec.get("shuffle") and self.fmt == "coo" and M.nnz > 1:
             # COO triplets may come in any order (e.g. assembled from a dict); the order changes
             # from call to call while pattern and values stay the same
-            self._shuffle_count = getattr(self, "_shuffle_count", 0) + 1
-            k = self._shuffle_count % M.nnz
+            # the order is a function of the values only (state-free: the same call returns the same
+            # triplet order whatever happened before, so twin runs see the same device)
+            h = int(np.frombuffer(np.ascontiguousarray(M.data).tobytes(), dtype=np.uint8).astype(np.int64).sum())
+            k = h % M.nnz
             idx = np.r_[k : M.nnz, 0:k]
-            if self._shuffle_count % 2:
+            if (h // 7) % 2:
                 idx = idx[::-1]
             M = sp.sparse.coo_matrix((M.data[idx], (M.row[idx], M.col[idx])), shape=M.shape)
         return M.asformat(self.fmt)
 
-    def _deliver(self, comp, key, make, const=False):
+    def _deliver(self, comp, key, make, const=False, args=None):
         pol = self.policy
+        if pol == "retain" and args is not None:
+            # memoisation on the *retained argument array* (no copy): correct as long as the library
+            # never overwrites an array it passed to a callback
+            last = self.retained.get(comp)
+            if last is not None and all(np.array_equal(a, b) for a, b in zip(last[0], args)):
+                return self._hand_out(comp, last[1])
+            v = make()
+            self.retained[comp] = (tuple(args), v)
+            return self._hand_out(comp, v)
         if pol == "cached" and const:
             if comp not in self.const:
                 self.const[comp] = make()
@@ -219,6 +275,13 @@ class SimProblem(Problem):
         if fl is not None:
             self._note_fired(idx, "obj", k, x, site)
             return float(self._bad(fl.get("kind", "nan")))
+        if self.policy == "retain":
+            last = self.retained.get("obj")
+            if last is not None and np.array_equal(last[0][0], x):
+                return last[1]
+            v = self.um.f(x)
+            self.retained["obj"] = ((x,), v)
+            return v
         return self.um.f(x)
 
     def obj_grad(self, x):
@@ -237,7 +300,7 @@ class SimProblem(Problem):
             else:
                 g[cor["col"]] += cor["delta"]
             return g
-        return self._deliver("grad", x.tobytes(), lambda: self.um.g(x))
+        return self._deliver("grad", x.tobytes(), lambda: self.um.g(x), args=(x,))
 
     def cons(self, x):
         k, site = self._enter("cons", x)
@@ -248,7 +311,7 @@ class SimProblem(Problem):
             if c.size:
                 c[fl.get("pos", -1) % c.size] = self._bad(fl.get("kind", "nan"))
             return c
-        return self._deliver("cons", x.tobytes(), lambda: self.um.c(x))
+        return self._deliver("cons", x.tobytes(), lambda: self.um.c(x), args=(x,))
 
     def _faulty_sparse(self, dense, fl):
         # one explicit non-finite entry even when the matrix is structurally empty
@@ -282,7 +345,7 @@ class SimProblem(Problem):
             return self._faulty_sparse(self.um.J(x), fl)
         if cor is not None:
             return self._corrupt_sparse(self.um.J(x), cor)
-        return self._deliver("jac", x.tobytes(), lambda: self._sparse(self.um.J(x)), const=self.is_const_J)
+        return self._deliver("jac", x.tobytes(), lambda: self._sparse(self.um.J(x)), const=self.is_const_J, args=(x,))
 
     def lag_hess(self, x, y):
         k, site = self._enter("hess", x)
@@ -297,7 +360,7 @@ class SimProblem(Problem):
                 return self._sparse(self.um.H(x, cor["wrong_y"] * np.asarray(y, float)))
             return self._corrupt_sparse(self.um.H(x, y), cor)
         return self._deliver(
-            "hess", x.tobytes() + np.asarray(y, float).tobytes(), lambda: self._sparse(self.um.H(x, y)), const=self.is_const_H
+            "hess", x.tobytes() + np.asarray(y, float).tobytes(), lambda: self._sparse(self.um.H(x, y)), const=self.is_const_H, args=(x, y)
         )
 
 
